@@ -1936,6 +1936,61 @@ class Evaluator:
                 return True
         return False
 
+    def unset_optional_params(self, fi: FuncInfo) -> dict:
+        cache = self.__dict__.setdefault("_unset_cache", {})
+        if fi.fq in cache:
+            return cache[fi.fq]
+        a = fi.node.args
+        pos = [x.arg for x in a.posonlyargs + a.args]
+        defaults = dict(zip(pos[len(pos) - len(a.defaults):], a.defaults)) if a.defaults else {}
+        defaults.update({k.arg: d for k, d in zip(a.kwonlyargs, a.kw_defaults) if d is not None})
+        cands = {n: d.value for n, d in defaults.items() if isinstance(d, ast.Constant)}
+        if cands:
+            calls = self.__dict__.get("_all_calls")
+            if calls is None:
+                calls = {}
+                for m in self.repo.modules.values():
+                    for c in ast.walk(m.tree):
+                        if isinstance(c, ast.Call):
+                            nm = c.func.attr if isinstance(c.func, ast.Attribute) else c.func.id if isinstance(c.func, ast.Name) else None
+                            if nm:
+                                calls.setdefault(nm, []).append(c)
+                        elif isinstance(c, (ast.Attribute, ast.Name)):
+                            pass
+                self._all_calls = calls
+            decos = [getattr(d, "id", getattr(d, "attr", None)) for d in fi.node.decorator_list]
+            bound = 1 if fi.cls is not None and "staticmethod" not in decos else 0
+            names = [fi.name] + ([fi.cls.name, "cls", "super"] if fi.name == "__init__" and fi.cls is not None else [])
+            # the function taken as a value (callback, functools.partial, table entry) may be called with anything
+            refs = self.__dict__.get("_value_refs")
+            if refs is None:
+                refs = set()
+                for m in self.repo.modules.values():
+                    funcs_ = {id(n.func) for n in ast.walk(m.tree) if isinstance(n, ast.Call)}
+                    for n in ast.walk(m.tree):
+                        if id(n) in funcs_:
+                            continue
+                        if isinstance(n, ast.Attribute) and isinstance(n.ctx, ast.Load):
+                            refs.add(n.attr)
+                        elif isinstance(n, ast.Name) and isinstance(n.ctx, ast.Load):
+                            refs.add(n.id)
+                self._value_refs = refs
+            as_value = fi.name in refs or fi.name.startswith("__") and fi.name != "__init__"
+            if as_value:
+                cands = {}
+            for nm in names:
+                for c in calls.get(nm, []) if cands else []:
+                    if any(isinstance(x, ast.Starred) for x in c.args) or any(k.arg is None for k in c.keywords):
+                        cands = {}
+                        break
+                    for k in c.keywords:
+                        cands.pop(k.arg, None)
+                    for n in list(cands):
+                        if n in pos and len(c.args) > pos.index(n) - bound:
+                            cands.pop(n, None)
+        cache[fi.fq] = cands
+        return cands
+
     # ------------------------------------------------------------------ entry
     def run_function(self, fi: FuncInfo, args: Optional[dict] = None, self_cls: Optional[ClassInfo] = None,
                      heap: Optional[dict] = None, exact: bool = False):
@@ -1948,7 +2003,10 @@ class Evaluator:
             env[a.vararg.arg] = Sym("param:" + a.vararg.arg)
         if a.kwarg:
             env[a.kwarg.arg] = Sym("param:" + a.kwarg.arg)
-        # defaults are visible to rules through args override only
+        # an optional parameter with a constant default that no call in the analysed packages supplies always holds that default
+        # inside the program (a parameter added for callers that do not exist yet does not change what the tool does)
+        for n_, v_ in self.unset_optional_params(fi).items():
+            env[n_] = Const(v_)
         if args:
             env.update(args)
         st = State(env, heap or {})
